@@ -220,7 +220,19 @@ inline CellResult check_cell(const std::vector<Trial>& tr, uint64_t n, double rs
     for (int sd = 1; sd <= 3; ++sd) {
       const double p = NOMINAL[sd];
       const double need = p - 0.05 - 4.0 * std::sqrt(p * (1.0 - p) / T);
-      VF_CHECK(R.cov[sd] >= need, fam + "|mc|coverage-" + std::to_string(sd) + "sd", d + " need>=" + str(need));
+      // the 4-standard-error allowance is a normal approximation; for cells with few trials (T = 6 in the large-n
+      // down-sampling cells) it is not valid, so a shortfall must also be significant under the exact binomial law
+      // (same one-sided 4-sigma level, 3.2e-5) at the tolerated coverage p - 0.05
+      bool significant = true;
+      if (R.cov[sd] < need) {
+        const uint64_t in = static_cast<uint64_t>(std::llround(R.cov[sd] * T));
+        const double pt = p - 0.05;
+        double tail = 0;
+        for (uint64_t j = 0; j <= in; ++j)
+          tail += std::exp(std::lgamma(T + 1.0) - std::lgamma(j + 1.0) - std::lgamma(T - j + 1.0) + j * std::log(pt) + (T - j) * std::log(1.0 - pt));
+        significant = tail < 3.2e-5;
+      }
+      VF_CHECK(R.cov[sd] >= need || !significant, fam + "|mc|coverage-" + std::to_string(sd) + "sd", d + " need>=" + str(need));
     }
   }
   return R;
